@@ -53,8 +53,13 @@ def gen_scenario(seed, k):
             {"bin": "t_three", "pkg": "beta", "name": "passes", "ignored": False, "attempts": [fixed_attempt("pass", 70, "P")] * 3},
         ]
         # output containing the two code points XML 1.0 excludes (U+FFFE, U+FFFF), C0 controls, an ANSI escape and invalid UTF-8
-        hostile_out = "before \ufffe middle \uffff \x01\x08\x0b \x1b[31mred\x1b[0m ]]> <&> end\n".encode() + b"\xff\xfe tail\n"
-        nonchar = {"kind": "fail", "acts": ["out:" + hx(hostile_out), "err:" + hx(hostile_out), "exit:1"], "out": None, "err": None, "expect": "F", "raw_out": hostile_out}
+        hostile_out = ("before \ufffe middle \uffff \x01\x08\x0b \x1b[31mred\x1b[0m ]]> <&> end\n"
+                       "astral \U0001f600 \U0001d49c \U00020000 \U0010fffd bmp \ue000 \ufffd \ud7ff \ufdd0 \u2028 ok\n").encode() + b"\xff\xfe tail\n"
+        # what the documented normalisations leave of it: lossy UTF-8 (U+FFFD per invalid byte), the ANSI escape sequence and the
+        # characters XML 1.0 excludes removed; everything else — astral planes, private use, U+FFFD, U+D7FF, U+FDD0, U+2028 — kept
+        sc_hostile_text = ("before  middle   red ]]> <&> end\n"
+                           "astral \U0001f600 \U0001d49c \U00020000 \U0010fffd bmp \ue000 \ufffd \ud7ff \ufdd0 \u2028 ok\n\ufffd\ufffd tail\n")
+        nonchar = {"kind": "fail", "acts": ["out:" + hx(hostile_out), "err:" + hx(hostile_out), "exit:1"], "out": None, "err": None, "expect": "F", "raw_out": hostile_out, "junit_text": sc_hostile_text}
         tests.append({"bin": "t_three", "pkg": "beta", "name": "hostile_output", "ignored": False, "attempts": [nonchar] * 3})
         for t in tests: sc.test(t["bin"], t["name"], {str(i + 1): a["acts"] for i, a in enumerate(t["attempts"])})
         sc.config = f'''[profile.default]
@@ -72,7 +77,37 @@ store-failure-output = true
 '''
         sc.cli = []
         sc.env = {"NEXTEST_RUN_ID": "evil-inherited"}
-        sc.meta = {"tests": tests, "retries": 2, "threads": 2, "heavy": False, "group_m": None, "grace": GRACE, "delay_ms": 0, "backoff": "fixed", "run_ignored": "default", "extra": False, "store_s": False, "store_f": True}
+        sc.meta = {"tests": tests, "retries": 2, "threads": 2, "heavy": False, "group_m": None, "group_r": None, "grace": GRACE, "delay_ms": 0, "backoff": "fixed", "run_ignored": "default", "extra": False, "store_s": False, "store_f": True}
+        return sc
+    if k == 2:
+        # fixed scenario (corpus): members of a test group need more threads (3) than the group allows (2), on 4 test threads,
+        # dispatched first (priority); each must still count 3 against the run-wide limit: at most one single-thread test beside it
+        w = lambda ms_: {"kind": "pass", "acts": [f"work:{ms_}", "exit:0"], "out": None, "err": None, "expect": "P"}
+        tests = [{"bin": "t_two", "pkg": "alpha", "name": n, "ignored": False, "attempts": [w(450)]} for n in ("big_a", "big_b")]
+        tests += [{"bin": "t_one", "pkg": "alpha", "name": f"small_{i}", "ignored": False, "attempts": [w(300)]} for i in range(6)]
+        for t in tests: sc.test(t["bin"], t["name"], {"1": t["attempts"][0]["acts"]})
+        sc.config = '''[test-groups]
+g1 = { max-threads = 2 }
+[profile.default]
+retries = 0
+test-threads = 4
+fail-fast = false
+status-level = "all"
+final-status-level = "all"
+failure-output = "never"
+success-output = "never"
+[profile.default.junit]
+path = "@JUNIT@"
+[[profile.default.overrides]]
+filter = 'binary(t_two)'
+test-group = 'g1'
+threads-required = 3
+priority = 50
+'''
+        sc.cli = []
+        sc.env = {}
+        sc.timeout_s = 60
+        sc.meta = {"tests": tests, "retries": 0, "threads": 4, "heavy": False, "group_m": 2, "group_r": 3, "grace": GRACE, "delay_ms": 0, "backoff": "fixed", "run_ignored": "default", "extra": False, "store_s": False, "store_f": True}
         return sc
     retries = rng.choice([0, 0, 1, 2])
     threads = rng.choice([1, 2, 4])
@@ -99,6 +134,8 @@ store-failure-output = true
     grace = rng.choice([GRACE, GRACE, 0])
     group_m = rng.choice([None, None, 1, 2, 8])
     if k == 1: group_m, threads = 8, 2       # corpus: a group wider than the run
+    # every member of the group needs `group_r` threads (uniform within the group); may exceed the group's max-threads
+    group_r = rng.choice([None, None, 2, 3]) if group_m else None
     pol = f'retries = {retries}' if not delay_ms else (f'retries = {{ backoff = "fixed", count = {retries}, delay = "{delay_ms}ms" }}' if backoff == "fixed" else f'retries = {{ backoff = "exponential", count = {retries}, delay = "{delay_ms}ms" }}')
     sc.config = (f"[test-groups]\ng1 = {{ max-threads = {group_m} }}\n" if group_m else "") + f'''[profile.default]
 {pol}
@@ -126,7 +163,7 @@ threads-required = "num-test-threads"
 [[profile.default.overrides]]
 filter = 'binary(t_two)'
 test-group = 'g1'
-''' if group_m else "")
+''' + (f"threads-required = {group_r}\n" if group_r else "") if group_m else "")
     sc.cli = ["--run-ignored", run_ignored] + (["--retries", str(cli_retries)] if cli_retries is not None else []) + (["-j", str(cli_threads)] if cli_threads else [])
     if cli_retries is not None:
         retries_eff, delay_ms = cli_retries, 0
@@ -136,7 +173,7 @@ test-group = 'g1'
     sc.env = {"NEXTEST_RUN_ID": "evil-inherited", "NEXTEST_EXECUTION_MODE": "evil", "CARGO_PKG_NAME": "evil", "VT_MARK": "x"}
     sc.timeout_s = 90
     sc.meta = {"tests": tests, "retries": retries_eff, "threads": threads, "heavy": heavy, "grace": grace, "delay_ms": delay_ms, "backoff": backoff, "run_ignored": run_ignored, "extra": extra,
-               "store_s": store_s, "store_f": store_f, "group_m": group_m}
+               "store_s": store_s, "store_f": store_f, "group_m": group_m, "group_r": group_r}
     return sc
 
 
@@ -253,6 +290,45 @@ def mon_once(sc, r):
         else:
             if procs: out.append(viol(sc, r, "unselected-ran", f"unselected test {t['name']!r} was spawned {len(procs)}x"))
             if skipped.get(key, 0) != 1: out.append(viol(sc, r, "unselected-skip", f"unselected test {t['name']!r} reported skipped {skipped.get(key, 0)}x"))
+    return out
+
+
+def mon_history(sc, r):
+    """C02 on any history, cancelled or not (needs only the event log and the processes' own records): every test is started at most
+    once and finished at most once; the attempts a TestFinished reports are numbered 1..n consecutively and n is exactly the number of
+    processes spawned for that test, which carry __NEXTEST_ATTEMPT 1..n and do not overlap; no process without a TestStarted"""
+    out = []
+    started, fin = {}, finished_statuses(r)
+    for (ns, kind, data) in r.events:
+        if kind == "TestStarted": started[data.split(" ")[0]] = started.get(data.split(" ")[0], 0) + 1
+    pbt = {}
+    for (b, n), procs in procs_by_test(r).items():
+        pbt.setdefault((b, n), procs)
+    def unkey(key):
+        bid, nm = key.split("/")
+        dec = lambda x: "" if x == "-" else bytes.fromhex(x).decode("utf-8", "replace")
+        return dec(bid).split("::")[-1], dec(nm)
+    for key, n in started.items():
+        if n != 1: out.append(viol(sc, r, "history", f"test {unkey(key)[1]!r} started {n} times"))
+    for key, lst in fin.items():
+        b, nm = unkey(key)
+        if len(lst) != 1: out.append(viol(sc, r, "history", f"test {nm!r} finished {len(lst)} times")); continue
+        if not started.get(key): out.append(viol(sc, r, "history", f"test {nm!r} finished without having started"))
+        nums = [s.split(":")[0] for s in lst[0]]
+        tot = nums[0].split("/")[1] if nums and "/" in nums[0] else "?"
+        if nums != [f"{i + 1}/{tot}" for i in range(len(nums))]:
+            out.append(viol(sc, r, "attempts", f"test {nm!r}: the final report lists attempts {nums}; attempts are numbered consecutively from 1"))
+        procs = pbt.get((b, nm), [])
+        if len(procs) != len(nums):
+            out.append(viol(sc, r, "attempts", f"test {nm!r}: the final report lists {len(nums)} attempts {nums} but {len(procs)} process(es) were spawned for it (attempt numbers seen by the processes: {[p['env'].get('__NEXTEST_ATTEMPT') for p in procs]})"))
+    for (b, nm), procs in pbt.items():
+        atts = [p["env"].get("__NEXTEST_ATTEMPT") for p in procs]
+        if atts != [str(i + 1) for i in range(len(atts))]:
+            out.append(viol(sc, r, "attempts", f"test {nm!r}: process invocations carry attempt numbers {atts}, expected 1..{len(atts)}"))
+        for a, c in zip(procs, procs[1:]):
+            if a.get("end") and c["start"] < a["end"][1]: out.append(viol(sc, r, "overlap", f"test {nm!r}: an attempt started before the previous one ended"))
+        if not any(unkey(k) == (b, nm) for k in started):
+            out.append(viol(sc, r, "history", f"a process ran for test {nm!r} of {b} which was never reported started"))
     return out
 
 
@@ -399,6 +475,12 @@ def mon_junit(sc, r):
                         # the patterns are periodic: a short one recurs inside a long one, so count stored elements that *are* this output
                         cnt = sum(1 for t in texts if data in t and len(t) - len(data) < 64)
                         if cnt != 1: out.append(viol(sc, r, "junit-attribution", f"test {t['name']!r}: the output of attempt {k + 1} is stored {cnt} times in its testcase (must be exactly once)"))
+        if exp[-1].get("junit_text") is not None and sc.meta["store_f"] and not final_ok:
+            texts = [e.text or "" for e in c.iter() if e.tag in ("system-out", "system-err")]
+            for tx in texts:
+                if tx != exp[-1]["junit_text"]:
+                    out.append(viol(sc, r, "junit-text", f"test {t['name']!r}: stored output {tx!r} is not the process's output under the documented normalisations (lossy UTF-8, ANSI escapes and XML-invalid characters removed): expected {exp[-1]['junit_text']!r}")); break
+            if len(texts) != 2 * len(exp): out.append(viol(sc, r, "junit-text", f"test {t['name']!r}: {len(texts)} stored streams for {len(exp)} failed attempts"))
         n_fail += 0 if final_ok else 1
         n_flaky += 1 if final_ok and len(exp) > 1 else 0
     # statistics carried by RunFinished and the summary line
@@ -431,8 +513,10 @@ def mon_concurrency(sc, r):
     for (t, kind, p) in evs:
         if kind == 1:
             alive.append(p)
-            wsum = sum(T if (sc.meta.get("heavy") and q["bin"] == "t_three") else 1 for q in alive)
-            if wsum > T: out.append(viol(sc, r, "threads", f"alive test processes need {wsum} threads (binaries {[q['bin'] for q in alive]}, t_three needs all) with test-threads = {T}")); break
+            R = sc.meta.get("group_r") if sc.meta.get("group_m") else None
+            w = lambda q: T if (sc.meta.get("heavy") and q["bin"] == "t_three") else (min(R, T) if (R and q["bin"] == "t_two") else 1)
+            wsum = sum(w(q) for q in alive)
+            if wsum > T: out.append(viol(sc, r, "threads", f"alive test processes need {wsum} threads (binaries {[q['bin'] for q in alive]}; threads-required: t_three {'all' if sc.meta.get('heavy') else 1}, t_two {R or 1}) with test-threads = {T}")); break
             slots = [q["env"].get("NEXTEST_TEST_GLOBAL_SLOT") for q in alive]
             if len(set(slots)) != len(slots): out.append(viol(sc, r, "slot-unique", f"overlapping processes share a global slot: {slots}")); break
             if any(s is None or int(s) >= T for s in slots): out.append(viol(sc, r, "slot-bound", f"global slots {slots} with test-threads = {T}")); break
@@ -461,7 +545,8 @@ def mon_concurrency(sc, r):
             if p["bin"] != "t_two": continue
             if kind == 1:
                 alive.append(p)
-                if len(alive) > M: out.append(viol(sc, r, "group-threads", f"{len(alive)} tests of group g1 alive at once, max-threads = {M}")); break
+                R = sc.meta.get("group_r") or 1
+                if len(alive) * min(R, M) > M: out.append(viol(sc, r, "group-threads", f"{len(alive)} tests of group g1 (threads-required {R} each) alive at once, max-threads = {M}")); break
                 sl = [q["env"].get("NEXTEST_TEST_GROUP_SLOT") for q in alive]
                 if len(set(sl)) != len(sl): out.append(viol(sc, r, "group-slot", f"overlapping tests of group g1 share a group slot: {sl}")); break
             else: alive = [q for q in alive if q is not p]
